@@ -212,6 +212,24 @@ class KindInterp:
                             r = self.call(target, {})
                             return set(r) if isinstance(r, set) else TOP
                     return TOP
+                # Cls.resulting_problem_kind(kind[, compilation_kind]): a compiler that builds on another one
+                if m == "resulting_problem_kind" and e.args:
+                    obj = self.idx.resolve_dotted(f.module, ast.unparse(fn.value))
+                    if isinstance(obj, ClassInfo):
+                        target = obj.lookup(m)
+                        if target is not None and self._depth < 4:
+                            params = target.params()
+                            a0 = self._expr(e.args[0], env, f)
+                            call_args = {params[0]: set(a0) if isinstance(a0, set) else a0}
+                            for p in params[1:]:
+                                call_args[p] = None
+                            self._depth += 1
+                            try:
+                                r = self.call(target, call_args)
+                            finally:
+                                self._depth -= 1
+                            return set(r) if isinstance(r, set) else TOP
+                    return TOP
                 recv = self._expr(fn.value, env, f)
                 if m == "clone" and not e.args:
                     return set(recv) if isinstance(recv, set) else TOP
